@@ -88,7 +88,7 @@ SysStep(s, e) ==
         unlinkfailed2 == IF e.call = "unlink" /\ e.res \notin {"ok", "ENOENT"} /\ tgt \notin {"NONE", "DIR"}
                          THEN Put(s.unlinkfailed, p, Get(s.unlinkfailed, p, {}) \cup {tgt}) ELSE s.unlinkfailed
         prune2 == IF InLib(e) /\ e.call = "open" /\ e.res = "ok" /\ Has(e, "isdir") /\ IsCacheDir(s.cfg, DirId(e.path))
-                  THEN Put(s.prune, p, [d |-> DirId(e.path), fs |-> s.fs, fd |-> e.fd]) ELSE s.prune
+                  THEN Put(s.prune, p, [d |-> DirId(e.path), fs |-> s.fs, fd |-> e.fd, van |-> {}]) ELSE s.prune
         pruned2 == IF InLib(e) /\ e.call = "open" /\ e.res = "ok" /\ Has(e, "isdir") /\ IsCacheDir(s.cfg, DirId(e.path))
                    THEN Put(s.pruned, p, TRUE) ELSE s.pruned
         \* an eviction (or any removal of a key-named entry by the library) takes the key out of the abstract map
@@ -109,7 +109,11 @@ ExtStep(s, e) ==    \* crash / age / adversary / mark: trust the snapshot
     LET sn == IF Has(e, "snap") THEN e.snap ELSE Obs(s.fs)
         fds2 == IF e.e = "crash" THEN Del(s.fds, e.p) ELSE s.fds
         fs2 == Resync(s.fs, sn, fds2)
-    IN [s EXCEPT !.fs = fs2, !.fds = fds2, !.pubs = NewPubs(s.cfg, fs2, s.pubs),
+        \* an entry removed by the outside party while a maintenance of its directory is under way
+        prune2 == IF e.e = "advdel" /\ Has(e, "path") THEN
+                      [q \in DOMAIN s.prune |-> IF s.prune[q].d = DirOf(e.path) THEN [s.prune[q] EXCEPT !.van = @ \cup {e.path.n}] ELSE s.prune[q]]
+                  ELSE s.prune
+    IN [s EXCEPT !.fs = fs2, !.fds = fds2, !.pubs = NewPubs(s.cfg, fs2, s.pubs), !.prune = prune2,
                  !.planted = IF e.e = "mark" THEN @ ELSE @]
 
 CallStep(s, e) ==
@@ -195,9 +199,11 @@ Violations(s, e, s2) ==
           ELSE {})
     \cup (IF isSys /\ IsSeq(cfg) /\ e.call = "close" /\ e.p \in DOMAIN s.prune /\ s.prune[e.p].fd = e.fd /\ InLib(e)
              /\ Has(e, "fdpath") /\ DirId(e.fdpath) = s.prune[e.p].d
-          THEN Mon("PruneOK", PruneOK(s.prune[e.p].fs, s2.fs, s.prune[e.p].d,
-                                      IF e.api = "prune" THEN s.cur[e.p].cap ELSE
-                                      IF Has(cfg, "shardcap") /\ ~(s.prune[e.p].d \in {r.id : r \in Roots(cfg)}) THEN cfg.shardcap ELSE cfg.cap))
+          THEN LET capd == IF e.api = "prune" THEN s.cur[e.p].cap ELSE
+                            IF Has(cfg, "shardcap") /\ ~(s.prune[e.p].d \in {r.id : r \in Roots(cfg)}) THEN cfg.shardcap ELSE cfg.cap
+                   van == s.prune[e.p].van
+               IN Mon("PruneOK", IF van = {} THEN PruneOK(s.prune[e.p].fs, s2.fs, s.prune[e.p].d, capd)
+                                 ELSE PruneOKV(s.prune[e.p].fs, s2.fs, s.prune[e.p].d, capd, CHOOSE v \in van : TRUE))
           ELSE {})
     \cup (IF e.e = "stuck" THEN Mon("SoloCompletes", FALSE) ELSE {})
 
